@@ -60,6 +60,10 @@ SOURCES["v8"] = {"app/src/lib.rs": "use facade::Shared;\nuse beta::Extra;\n#[typ
 MULTI_ONLY = {"v8"}
 
 
+class Refused(Exception):
+    """a run of a supported source version failed (or a version that must be refused was accepted)"""
+
+
 def set_sources(root, v):
     if os.path.isdir(root):
         shutil.rmtree(root)
@@ -75,7 +79,7 @@ def run_into(out, src, lang, mode, expect_fail=False):
     os.makedirs(out, exist_ok=True)
     r = cli.run_cli(args, timeout=20)
     if r["exit"] != ("error" if expect_fail else "ok"):
-        raise ToolError(f"typeshare {'did not fail' if expect_fail else 'failed'} ({lang}, {mode}): exit {r['exit']} {r['stderr'][-300:]}")
+        raise Refused(f"typeshare {'did not fail' if expect_fail else 'failed'} ({lang}, {mode}): exit {r['exit']} {r['stderr'][-200:].strip()}")
     return {p: {"sha": s, "mtime": str(m)} for p, (s, m) in cli.snapshot(out).items()}
 
 
@@ -110,6 +114,8 @@ def run(chk):
     work = common.scratch("c17")
     import concurrent.futures as cf
 
+    refusals = []
+
     def do_config(lang, mode):
         events, meta = [], []
         base = os.path.join(work, f"{lang}_{mode}")
@@ -118,7 +124,11 @@ def run(chk):
             if v in MULTI_ONLY and mode != "multi":
                 continue
             set_sources(src, v)
-            ref = run_into(os.path.join(base, f"ref_{v}"), src, lang, mode, v in FAILS)
+            try:
+                ref = run_into(os.path.join(base, f"ref_{v}"), src, lang, mode, v in FAILS)
+            except Refused as e:
+                refusals.append((lang, mode, [v], str(e)))
+                continue
             if v in FAILS:
                 if ref:
                     events.append({"ev": "reset"})
@@ -136,7 +146,11 @@ def run(chk):
             for k, v in enumerate(h):
                 set_sources(src, v)
                 time.sleep(0.003)
-                snap = run_into(out, src, lang, mode, v in FAILS)
+                try:
+                    snap = run_into(out, src, lang, mode, v in FAILS)
+                except Refused as e:
+                    refusals.append((lang, mode, list(h[:k + 1]), str(e)))
+                    break
                 events.append({"ev": "run", "v": v, "failed": v in FAILS, "files": snap})
                 meta.append({"lang": lang, "mode": mode, "history": list(h[:k + 1])})
             shutil.rmtree(out, ignore_errors=True)
@@ -147,6 +161,8 @@ def run(chk):
         futs = [ex.submit(do_config, lang, mode) for lang in langs for mode in ("single", "multi")] + \
                ([] if thorough else [ex.submit(do_config, "python", "multi")])
         configs = [f.result() for f in futs]
+    for lang, mode, hist, msg in refusals[:20]:
+        chk.refused(f"{lang}/{mode}/{hist[-1]}", f"{lang} {mode}: after history {hist}: {msg}", {"lang": lang, "mode": mode, "history": hist})
     for lang, mode, events, meta in configs:
         ok, matched, tres = common.trace_validate("Trace_Writer", events, timeout=900)
         chk.add_tlc(f"Trace_Writer[{lang},{mode}]", tres)
